@@ -99,3 +99,17 @@ Definition check_load (l : lobs) : bool :=
 
 (* diagnostic only: does the real answer match a loader that restores only a truthy meta flag? *)
 Definition check_load_truthy (l : lobs) : bool := load_agrees false l.
+
+(* ---- what @deprecate does to the class table (C20, identifier half): the model's `deprecate`, applied to the table
+   reflected from the real classes BEFORE @deprecate in the order python performs the deprecations, must give the table
+   reflected from the real classes AFTER (type identifiers and declared arguments)                                   *)
+From XV Require Import corr.SealCorr.
+
+Definition arg_eqb (a b : argdecl) : bool :=
+  bytes_eqb (a_name a) (a_name b) && Bool.eqb (a_ignored a) (a_ignored b) && Bool.eqb (a_gen a) (a_gen b)
+  && Bool.eqb (a_const a) (a_const b) && Bool.eqb (a_required a) (a_required b)
+  && opt_eqb value_eqb (a_default a) (a_default b).
+Definition class_eqb (a b : class) : bool := bytes_eqb (c_tid a) (c_tid b) && list_eqb arg_eqb (c_args a) (c_args b).
+
+Definition check_deprecate (c : classes * list (nat * nat) * classes) : bool :=
+  list_eqb class_eqb (deprecate_all (fst (fst c)) (snd (fst c))) (snd c).
